@@ -51,6 +51,7 @@ struct Handle {
     pos: u64,
     read: bool,
     write: bool,
+    append: bool,
 }
 
 #[derive(Default)]
@@ -59,6 +60,7 @@ pub struct FsCounters {
     pub seeks: u64,
     pub writes: u64,
     pub closes: u64,
+    pub syncs: u64,
     pub open_failed: u64,
     pub seek_failed: u64,
     pub full_hits: u64,
@@ -110,15 +112,16 @@ impl FsBackend for SimFs {
         }
         st.io.note(b'o', 0);
         let exists = st.files.contains_key(path);
+        if exists && options.create_new { return Err(io::Error::new(ErrorKind::AlreadyExists, "sdsim: file exists")); }
         if !exists {
-            if options.create && options.write { st.files.insert(path.to_path_buf(), Vec::new()); }
+            if (options.create || options.create_new) && (options.write || options.append) { st.files.insert(path.to_path_buf(), Vec::new()); }
             else { return Err(io::Error::new(ErrorKind::NotFound, "sdsim: no such file")); }
         } else if options.truncate && options.write {
             st.files.get_mut(path).unwrap().clear();
         }
         let h = st.next_handle;
         st.next_handle += 1;
-        st.handles.insert(h, Handle { path: path.to_path_buf(), pos: 0, read: options.read, write: options.write });
+        st.handles.insert(h, Handle { path: path.to_path_buf(), pos: 0, read: options.read, write: options.write || options.append, append: options.append });
         Ok(h)
     }
 
@@ -128,7 +131,8 @@ impl FsBackend for SimFs {
         let call = st.rw_prologue()?;
         let nth = st.counters.writes;
         st.counters.writes += 1;
-        let (path, pos, writable) = { let h = st.handles.get(&handle).ok_or_else(|| io::Error::new(ErrorKind::Other, "sdsim: bad handle"))?; (h.path.clone(), h.pos, h.write) };
+        let (path, mut pos, writable, append) = { let h = st.handles.get(&handle).ok_or_else(|| io::Error::new(ErrorKind::Other, "sdsim: bad handle"))?; (h.path.clone(), h.pos, h.write, h.append) };
+        if append { pos = st.files.get(&path).map(|f| f.len() as u64).unwrap_or(0); st.handles.get_mut(&handle).unwrap().pos = pos; }
         if !writable { return Err(io::Error::new(ErrorKind::PermissionDenied, "sdsim: not open for writing")); }
         let mut room = usize::MAX;
         match st.plan.fault {
@@ -191,6 +195,27 @@ impl FsBackend for SimFs {
 
     fn flush(&mut self, _: u64) -> io::Result<()> {
         Ok(())
+    }
+
+    fn sync(&mut self, _: u64, _: bool) -> io::Result<()> {
+        let mut st = self.0.borrow_mut();
+        st.counters.syncs += 1;
+        st.io.note(b'y', 0);
+        Ok(())
+    }
+
+    fn set_len(&mut self, handle: u64, len: u64) -> io::Result<()> {
+        let mut st = self.0.borrow_mut();
+        let path = st.handles.get(&handle).ok_or_else(|| io::Error::new(ErrorKind::Other, "sdsim: bad handle"))?.path.clone();
+        if let Some(FsFault::Full(limit, kind)) = st.plan.fault { if len > limit { return Err(injected(kind)); } }
+        st.files.get_mut(&path).ok_or_else(|| io::Error::new(ErrorKind::NotFound, "sdsim: file vanished"))?.resize(len as usize, 0);
+        Ok(())
+    }
+
+    fn len(&mut self, handle: u64) -> io::Result<u64> {
+        let st = self.0.borrow();
+        let path = &st.handles.get(&handle).ok_or_else(|| io::Error::new(ErrorKind::Other, "sdsim: bad handle"))?.path;
+        Ok(st.files.get(path).map(|f| f.len() as u64).unwrap_or(0))
     }
 
     fn close(&mut self, handle: u64) {
